@@ -2,7 +2,7 @@
    Models: LogThrModel.v (part A: control histories run_ctl; part B: interleavings exec).
    `true' = the repaired code (fixes/C16-1..5), `false' = the code as found. *)
 From Coq Require Import ZArith List Bool Sorted.
-Require Import Verif.gen.Consts_logthr Verif.LogThrModel Verif.LogThrProofs Verif.LogThrProofs2 Verif.LogThrProofs3 Verif.LogThrProofs4.
+Require Import Verif.gen.Consts_logthr Verif.LogThrModel Verif.LogThrProofs Verif.LogThrProofs2 Verif.LogThrProofs3 Verif.LogThrProofs4 Verif.LogThrProofs5.
 Import ListNotations.
 Local Open Scope Z_scope.
 
@@ -154,6 +154,16 @@ Theorem C16_quiescent_queue_empty : forall mprog progs sched, let s := exec true
   quiescent s -> q (c_sh s) = [].
 Proof. exact quiescent_queue_empty. Qed.
 Print Assumptions C16_quiescent_queue_empty.
+
+(* "written exactly once" in full: when the control program never disables or closes the target (enabling, other
+   control calls, join + qb_log_fini are allowed), every record the worker takes is handed to the target's logger, and
+   when qb_log_fini has returned the sequence written to the target IS the sequence of accepted records *)
+Theorem C16_written_all : forall mprog progs sched, forallb nondis mprog = true ->
+  let s := exec true sched (cinit mprog progs) in
+  written (c_gh s) = popped (c_gh s) /\
+  (stopped (c_gh s) = true -> written (c_gh s) = accepted (c_gh s)).
+Proof. exact conc_written_all. Qed.
+Print Assumptions C16_written_all.
 
 (* non-vacuity: a schedule on which the backlog limit is hit, a drop is reported and fini completes
    (message lengths derived from the regenerated constants, so that a different limit re-checks) *)
